@@ -34,6 +34,8 @@ func main() {
 		cmdCheck(os.Args[2:])
 	case "selftest":
 		cmdSelftest(os.Args[2:])
+	case "witness":
+		cmdWitness(os.Args[2:])
 	case "replay":
 		cmdReplay(os.Args[2:])
 	default:
@@ -150,4 +152,47 @@ func cmdDump(args []string) {
 	for _, o := range vc.obls {
 		fmt.Println("  ", o.Name)
 	}
+}
+
+// cmdWitness: find a counterexample of one obligation inside an input class
+// and replay it on the real code (used to confirm findings by hand).
+func cmdWitness(args []string) {
+	fs := flag.NewFlagSet("witness", flag.ExitOnError)
+	repo := fs.String("repo", "/repo", "")
+	tags := fs.String("tags", "verif", "")
+	verif := fs.String("verif", "/verif", "")
+	class := fs.String("assume", "true", "contract-language predicate restricting the inputs")
+	timeout := fs.Int("t", 60, "")
+	fs.Parse(args)
+	ld, db := loadAll(*repo, *tags)
+	name := fs.Arg(0)
+	fn := ld.funcs[name]
+	if fn == nil {
+		fmt.Println("no such function")
+		os.Exit(1)
+	}
+	vc, ex, err := VerifyFunc(ld, db, fn, db.funcs[name], verifyOpts{lockChecks: true})
+	if err != nil {
+		fmt.Fprintln(os.Stderr, err)
+	}
+	for _, o := range vc.obls {
+		if !strings.Contains(o.Name, fs.Arg(1)) {
+			continue
+		}
+		e, perr := parseExpr(*class)
+		if perr != nil {
+			fmt.Println(perr)
+			os.Exit(1)
+		}
+		before := len(vc.cmds)
+		t := ex.evalBool(ex.topFrame, ex.topFrame.entry, ex.topFrame.entry, nil, e)
+		o.Extra = append([]string{}, vc.cmds[before:]...)
+		vc.cmds = vc.cmds[:before]
+		o.ExtraAssert = "(assert " + t + ")\n"
+		cr := &checkRun{repo: *repo, verifDir: *verif, timeout: *timeout, oblExec: map[*Obl]*Exec{o: ex}}
+		out, ok := tryReplay(cr, o)
+		fmt.Printf("obligation %s\nreplayed=%v\n%s\n", o.Name, ok, out)
+		return
+	}
+	fmt.Println("no such obligation")
 }
